@@ -98,6 +98,7 @@ pub struct PerSigner {
     pub progress_reported: BTreeSet<u64>,
     pub disturbed: bool,
     pub last_error: Option<String>,
+    pub registration_attempts: BTreeMap<u64, u32>,
 }
 
 pub struct PendingBuffered {
@@ -197,13 +198,14 @@ fn compact(ev: &HttpEvent) -> Value {
 }
 
 impl Run {
-    pub async fn start(dir: PathBuf, rng: &mut ChaCha20Rng, hid: &str, types: Vec<SignedEntityTypeDiscriminants>) -> StdResult<Run> {
+    pub async fn start(dir: PathBuf, rng: &mut ChaCha20Rng, hid: &str, types: Vec<SignedEntityTypeDiscriminants>, sizes: Option<(usize, usize)>) -> StdResult<Run> {
         let n_real = 1 + rnd::usize_below(rng, 3);
         let n_scripted = match rnd::below(rng, 10) {
             0..=1 => 0,
             2..=6 => 1,
             _ => 2,
         };
+        let (n_real, n_scripted) = sizes.unwrap_or((n_real, n_scripted));
         let n = n_real + n_scripted;
         let pp = ProtocolParameters { k: 3 + rnd::below(rng, 3), m: 60 + rnd::below(rng, 60), phi_f: 0.95 };
         let cfg = SimConfig { data_dir: dir.join("aggregator"), protocol_parameters: pp.clone(), tx_step: 30, blocks_step: 15 };
@@ -288,6 +290,18 @@ impl Run {
                 f.operational_certificate_path().ok_or_else(|| anyhow!("no opcert"))?.to_path_buf(),
             )) as Arc<dyn KesSigner>;
             scripted.push(Scripted { fixture_idx: j, party: signer.party_id.clone(), initializers, kes, signed: BTreeSet::new() });
+        }
+        // before its first tick the aggregator has not opened a registration round: a registration sent
+        // now yields the genuine "round not yet opened" reply (kept by the front for later re-use)
+        {
+            let signer: Signer = fixtures[0].signer_with_stake.clone().into();
+            if let Ok(msg) = ToRegisterSignerMessageAdapter::try_adapt((Epoch(start_epoch + 1), signer)) {
+                if let Ok(b) = serde_json::to_vec(&msg) {
+                    let mut h = HeaderMap::new();
+                    h.insert("content-type", "application/json".parse().unwrap());
+                    let _ = front.state.forward(&Method::POST, "/aggregator/register-signer", &h, &b).await;
+                }
+            }
         }
         let snap = sim::snapshot(&agg.sim.db_path())?;
         let mut seed = [0u8; 32];
@@ -519,6 +533,10 @@ impl Run {
                         None => continue,
                     }
                 }
+                "round-not-open" => match self.front.state.round_not_open_reply.lock().unwrap().clone() {
+                    Some(b) => FaultKind::RoundNotOpen(b),
+                    None => continue,
+                },
                 _ => continue,
             };
             out.push(PlannedFault { on: f.on, kind, remaining: f.n });
@@ -650,6 +668,7 @@ impl Run {
             return;
         };
         mon.eval();
+        *self.per[i].registration_attempts.entry(self.chain_epoch).or_insert(0) += 1;
         if msg.party_id != self.signers[i].party_id {
             mon.violation("C20 registration sent under another party id", &format!("signer {i} registered as {}", msg.party_id), self.replay(json!({"signer": i})));
         }
@@ -854,10 +873,16 @@ impl Run {
         // does it hold keys for the next epoch (registration sent during epoch - 1)?
         let next = self.model.in_force(epoch + 1).get(&party).map(|r| r.acked_to_sender);
         let after_restart = self.per[i].restarted_in_epoch == Some(epoch);
-        let (signature, why) = if next != Some(true) {
+        let attempts = self.per[i].registration_attempts.get(&(epoch - 1)).copied().unwrap_or(0);
+        let (signature, why) = if next != Some(true) && attempts == 0 {
             (
                 "C20 eligible signer cannot sign in an epoch whose preceding registration round it missed",
-                format!("it holds the key registered for epoch {epoch} (the aggregator counts it in the signer set), but has no acknowledged registration sent during epoch {} (down / faults during that round)", epoch - 1),
+                format!("it holds the key registered for epoch {epoch} (the aggregator counts it in the signer set), but it sent no registration during epoch {} (it was down, or never got as far as registering)", epoch - 1),
+            )
+        } else if next != Some(true) {
+            (
+                "C20 eligible signer cannot sign in an epoch after its registration attempts of the preceding round failed",
+                format!("it holds the key registered for epoch {epoch} (the aggregator counts it in the signer set); its {attempts} registration attempt(s) sent during epoch {} were dropped or their replies lost, so it stored no keys for epoch {}", epoch - 1, epoch + 1),
             )
         } else if after_restart {
             ("C20 signer does not resume signing after restart", "restarted during this epoch".to_string())
